@@ -4,6 +4,7 @@ import (
 	"fmt"
 	"go/ast"
 	"go/constant"
+	"go/parser"
 	"go/token"
 	"go/types"
 	"golang.org/x/tools/go/packages"
@@ -139,6 +140,7 @@ func (e *Env) RFragOrder() {
 	e.RStageMonotone()
 	e.RFragDecorationPositions()
 	e.RPhysicalLines()
+	e.RTextExtent()
 	e.RSearchTransparency()
 	pkg := e.Prog.Pkg(load.PkgDecorator)
 	info := pkg.TypesInfo
@@ -231,11 +233,34 @@ func (e *Env) RFragOrder() {
 			e.Run.Check("R-FRAG", key, e.Prog.Pos(at.Pos()), len(names) == 1,
 				"lines of "+fromInner+" .. "+toInner+" mix the extents of different things ("+strings.Join(names, ", ")+"): newlines between them are suppressed (or newlines inside are kept) and the text is printed on other lines")
 		}
-		ast.Inspect(lit.Body, func(n ast.Node) bool {
-			fs, ok := n.(*ast.ForStmt)
-			if !ok || fs.Init == nil || fs.Cond == nil {
-				return true
+		// the bounds of a marking loop as text, with the parameters of the closure or function the
+		// loop lives in replaced by the arguments of one call (printed in the caller's terms)
+		boundsAt := func(fs *ast.ForStmt, params []*ast.Ident, call *ast.CallExpr) (string, string, bool) {
+			init, ok1 := fs.Init.(*ast.AssignStmt)
+			cond, ok2 := fs.Cond.(*ast.BinaryExpr)
+			if !ok1 || !ok2 || len(init.Rhs) != 1 {
+				return "", "", false
 			}
+			saved := c.Subst
+			if call != nil {
+				c.Subst = map[types.Object]ast.Expr{}
+				for k, v := range saved {
+					c.Subst[k] = v
+				}
+				for i, p := range params {
+					if i >= len(call.Args) || info.Defs[p] == nil {
+						continue
+					}
+					if ax, err := parser.ParseExpr(c.ExprStr(call.Args[i])); err == nil {
+						c.Subst[info.Defs[p]] = &ast.ParenExpr{X: ax}
+					}
+				}
+			}
+			from, to := c.ExprStr(init.Rhs[0]), c.ExprStr(cond.Y)
+			c.Subst = saved
+			return from, to, true
+		}
+		marksSet := func(fs *ast.ForStmt) bool {
 			marks := false
 			ast.Inspect(fs.Body, func(m ast.Node) bool {
 				if as, ok := m.(*ast.AssignStmt); ok {
@@ -249,24 +274,24 @@ func (e *Env) RFragOrder() {
 				}
 				return true
 			})
-			if !marks {
-				return true
-			}
-			init, ok1 := fs.Init.(*ast.AssignStmt)
-			cond, ok2 := fs.Cond.(*ast.BinaryExpr)
-			if !ok1 || !ok2 || len(init.Rhs) != 1 {
-				return true
-			}
+			return marks
+		}
+		judge := func(from, to string, at ast.Node) {
 			nAvoid++
-			from, to := c.ExprStr(init.Rhs[0]), c.ExprStr(cond.Y)
-			mf, mt := posLine.FindStringSubmatch(from), posLine.FindStringSubmatch(to)
 			key := fmt.Sprintf("fragment: avoided line range #%d spans one entity", nAvoid)
-			if mf == nil || mt == nil {
-				e.Run.Check("R-FRAG", key, e.Prog.Pos(fs.Pos()), false, "bounds `"+from+"` .. `"+to+"` are not lines of positions in the file set")
+			fi, ti, ok := lineSpan(from, to, posLine)
+			if !ok {
+				e.Run.Check("R-FRAG", key, e.Prog.Pos(at.Pos()), false, "bounds `"+from+"` .. `"+to+"` are not the line of a position in the file set and the line of another (or the first line plus the line breaks counted in a text)")
+				return
+			}
+			checkSpanAt(fi, ti, at, key)
+		}
+		ast.Inspect(lit.Body, func(n ast.Node) bool {
+			fs, ok := n.(*ast.ForStmt)
+			if !ok || fs.Init == nil || fs.Cond == nil || !marksSet(fs) {
 				return true
 			}
-			checkSpan := checkSpanAt
-			// the loop may live in a local closure span(from, to): then every call site is a range
+			// the loop may live in a local closure: then every call site is a range
 			var inner *ast.FuncLit
 			ast.Inspect(lit.Body, func(m ast.Node) bool {
 				if fl, ok := m.(*ast.FuncLit); ok && fl.Body.Pos() <= fs.Pos() && fs.End() <= fl.Body.End() {
@@ -275,16 +300,10 @@ func (e *Env) RFragOrder() {
 				return true
 			})
 			if inner != nil {
-				pidx := map[string]int{}
-				k := 0
+				var params []*ast.Ident
 				for _, p := range inner.Type.Params.List {
-					for _, nm := range p.Names {
-						pidx[nm.Name] = k
-						k++
-					}
+					params = append(params, p.Names...)
 				}
-				fi, okf := pidx[mf[1]]
-				ti, okt := pidx[mt[1]]
 				var bound types.Object
 				ast.Inspect(lit.Body, func(m ast.Node) bool {
 					if as, ok := m.(*ast.AssignStmt); ok && len(as.Lhs) == 1 && len(as.Rhs) == 1 && as.Rhs[0] == ast.Expr(inner) {
@@ -294,27 +313,29 @@ func (e *Env) RFragOrder() {
 					}
 					return true
 				})
-				if okf && okt && bound != nil {
-					nAvoid-- // the closure itself is not a range; its call sites are
+				if bound != nil {
 					ast.Inspect(lit.Body, func(m ast.Node) bool {
 						call, ok := m.(*ast.CallExpr)
-						if !ok || len(call.Args) != k {
+						if !ok || len(call.Args) != len(params) {
 							return true
 						}
 						if id, ok := call.Fun.(*ast.Ident); ok && info.Uses[id] == bound {
-							nAvoid++
-							checkSpan(c.ExprStr(call.Args[fi]), c.ExprStr(call.Args[ti]), call, fmt.Sprintf("fragment: avoided line range #%d spans one entity", nAvoid))
+							if from, to, ok := boundsAt(fs, params, call); ok {
+								judge(from, to, call)
+							}
 						}
 						return true
 					})
 					return true
 				}
 			}
-			checkSpan(mf[1], mt[1], fs, key)
+			if from, to, ok := boundsAt(fs, nil, nil); ok {
+				judge(from, to, fs)
+			}
 			return true
 		})
-		// the marking loop may live in a function of the package that is handed the set and the two
-		// positions: every call site in the per-file pass is a range
+		// the marking loop may live in a function of the package that is handed the set: every
+		// call site in the per-file pass is a range
 		ast.Inspect(lit.Body, func(n ast.Node) bool {
 			call, ok := n.(*ast.CallExpr)
 			if !ok {
@@ -324,39 +345,45 @@ func (e *Env) RFragOrder() {
 			if mk == nil {
 				return true
 			}
-			undoH := c.InstallReaching(mk.decl)
-			var from, to string
-			ast.Inspect(mk.decl.Body, func(m ast.Node) bool {
-				fs, ok := m.(*ast.ForStmt)
-				if !ok || fs.Init == nil || fs.Cond == nil {
-					return true
+			var params []*ast.Ident
+			for _, f := range mk.decl.Type.Params.List {
+				params = append(params, f.Names...)
+			}
+			// the arguments in the caller's terms first, then the helper's own locals
+			type sub struct {
+				o types.Object
+				x ast.Expr
+			}
+			var subs []sub
+			for i, p := range params {
+				if i < len(call.Args) && info.Defs[p] != nil {
+					if ax, err := parser.ParseExpr(c.ExprStr(call.Args[i])); err == nil {
+						subs = append(subs, sub{info.Defs[p], &ast.ParenExpr{X: ax}})
+					}
 				}
-				init, ok1 := fs.Init.(*ast.AssignStmt)
-				cond, ok2 := fs.Cond.(*ast.BinaryExpr)
-				if ok1 && ok2 && len(init.Rhs) == 1 {
-					from, to = c.ExprStr(init.Rhs[0]), c.ExprStr(cond.Y)
+			}
+			undoH := c.InstallReaching(mk.decl)
+			saved := c.Subst
+			c.Subst = map[types.Object]ast.Expr{}
+			for k, v := range saved {
+				c.Subst[k] = v
+			}
+			for _, sb := range subs {
+				c.Subst[sb.o] = sb.x
+			}
+			var from, to string
+			found := false
+			ast.Inspect(mk.decl.Body, func(m ast.Node) bool {
+				if fs, ok := m.(*ast.ForStmt); ok && fs.Init != nil && fs.Cond != nil && marksSet(fs) && !found {
+					from, to, found = boundsAt(fs, nil, nil)
 				}
 				return true
 			})
+			c.Subst = saved
 			undoH()
-			mfm, mtm := posLine.FindStringSubmatch(from), posLine.FindStringSubmatch(to)
-			nAvoid++
-			key := fmt.Sprintf("fragment: avoided line range #%d spans one entity", nAvoid)
-			pidx := map[string]int{}
-			for i, p := range mk.params {
-				pidx[p] = i
+			if found {
+				judge(from, to, call)
 			}
-			if mfm == nil || mtm == nil {
-				e.Run.Check("R-FRAG", key, e.Prog.Pos(call.Pos()), false, "bounds `"+from+"` .. `"+to+"` of the marking loop in "+mk.decl.Name.Name+" are not lines of positions in the file set")
-				return true
-			}
-			fi, okf := pidx[mfm[1]]
-			ti, okt := pidx[mtm[1]]
-			if !okf || !okt {
-				e.Run.Check("R-FRAG", key, e.Prog.Pos(call.Pos()), false, "the marking loop in "+mk.decl.Name.Name+" runs from `"+from+"` to `"+to+"`, which are not the lines of two of its position parameters")
-				return true
-			}
-			checkSpanAt(c.ExprStr(call.Args[fi]), c.ExprStr(call.Args[ti]), call, key)
 			return true
 		})
 		undo()
@@ -763,6 +790,371 @@ func (e *Env) RPhysicalLines() {
 		})
 	}
 	e.Run.Floor("R-FRAG", "position look-ups in the decorator", n, 5)
+}
+
+// RTextExtent (R-FRAG): where a comment or a string literal ends in the file is never computed
+// from the length of its text. go/scanner removes every carriage return from raw string literals
+// and from comments, so in a file with CRLF line endings the text is shorter than its extent in
+// the source by one byte per line break it holds; ast.Comment.End, ast.CommentGroup.End and
+// ast.BasicLit.End are computed from that length too. A position looked up at <start> + len(text)
+// falls short of the real end: the last lines of a raw string are taken for code and the line
+// break inside the literal is printed as a line break (and a trailing comma) after it. The line
+// breaks themselves all survive in the text, so lines are counted, not bytes.
+func (e *Env) RTextExtent() {
+	pkg := e.Prog.Pkg(load.PkgDecorator)
+	info := pkg.TypesInfo
+	n := 0
+	isText := func(x ast.Expr) bool {
+		se, ok := ast.Unparen(x).(*ast.SelectorExpr)
+		if !ok {
+			return false
+		}
+		if sel := info.Selections[se]; sel == nil || sel.Kind() != types.FieldVal {
+			return false
+		}
+		b, ok := info.TypeOf(se).Underlying().(*types.Basic)
+		return ok && b.Kind() == types.String
+	}
+	for _, fd := range load.AllFuncDecls(pkg) {
+		if fd.Body == nil || strings.HasPrefix(filepathBase(e.Prog.File(fd.Pos())), "restorer") {
+			continue
+		}
+		ast.Inspect(fd.Body, func(nd ast.Node) bool {
+			call, ok := nd.(*ast.CallExpr)
+			if !ok {
+				return true
+			}
+			_, arg, isLookup := e.posLookup(pkg, call, 0)
+			if !isLookup {
+				return true
+			}
+			n++
+			// the position looked up, through a local that holds it
+			if id, isID := ast.Unparen(arg).(*ast.Ident); isID {
+				if def := singleDefIn(info, fd.Body.List, info.Uses[id]); def != nil {
+					arg = def
+				}
+			}
+			why := ""
+			ast.Inspect(arg, func(m ast.Node) bool {
+				c2, ok := m.(*ast.CallExpr)
+				if !ok {
+					return true
+				}
+				if id, ok := c2.Fun.(*ast.Ident); ok && id.Name == "len" && len(c2.Args) == 1 {
+					if _, isBuiltin := info.Uses[id].(*types.Builtin); isBuiltin && isText(c2.Args[0]) {
+						why = "len(" + types.ExprString(c2.Args[0]) + ")"
+					}
+				}
+				if fn := calleeFunc(info, c2); fn != nil && fn.Name() == "End" && fn.Pkg() != nil && fn.Pkg().Path() == "go/ast" {
+					if se, ok := c2.Fun.(*ast.SelectorExpr); ok {
+						switch _, tn := namedOf(info.TypeOf(se.X)); tn {
+						case "Comment", "CommentGroup", "BasicLit":
+							why = types.ExprString(c2) + " (go/ast computes it from the length of the text)"
+						}
+					}
+				}
+				return true
+			})
+			if why != "" {
+				e.Run.Check("R-FRAG", fmt.Sprintf("%s: the end of a text in the file is not taken from the length of the text", load.FuncName(fd)), e.Prog.Pos(call.Pos()), false,
+					"the position looked up is computed from "+why+": go/scanner strips carriage returns from raw strings and comments, so in a CRLF file the text is shorter than its extent in the source and the position falls short of its real end — the last line break inside a raw string is taken for a line break of the code (`After: NewLine` on the literal, an extra `,` printed); count the line breaks in the text instead")
+			}
+			return true
+		})
+	}
+	e.Run.Floor("R-FRAG", "position look-ups examined for text extents", n, 5)
+}
+
+// RBlankLine (R-SCAN): whether a line of the source is empty is not decided by a fixed byte
+// distance. An empty line is a line that holds nothing but white space: "\n" in a gofmt-formatted
+// file, but "\r\n" in a file with CRLF line endings and "\t\n" where an editor left blanks behind.
+// A test that looks one byte past the start of the line (a position look-up at i+1, or a
+// comparison of the next line's start with this line's start plus one) recognises the first form
+// only: every other empty line becomes an ordinary line break, import groups merge and are sorted
+// as one, a free-standing comment becomes a doc comment and is reformatted.
+func (e *Env) RBlankLine() {
+	pkg := e.Prog.Pkg(load.PkgDecorator)
+	info := pkg.TypesInfo
+	fd := load.FuncDecl(pkg, "fileDecorator", "fragment")
+	if fd == nil {
+		return
+	}
+	lit := e.perFilePass(pkg, fd)
+	if lit == nil {
+		e.Run.Undecided("R-SCAN", "per-file pass of fragment()", e.Prog.Pos(fd.Pos()), "no function that fragment() calls for an *ast.File and for each file of an *ast.Package")
+		return
+	}
+	// functions that build a newline fragment whose Empty flag is one of their parameters
+	emitter := map[types.Object]int{}
+	for _, d := range load.AllFuncDecls(pkg) {
+		if d.Body == nil || d.Type.Params == nil {
+			continue
+		}
+		var params []types.Object
+		for _, p := range d.Type.Params.List {
+			for _, nm := range p.Names {
+				params = append(params, info.Defs[nm])
+			}
+		}
+		ast.Inspect(d.Body, func(n ast.Node) bool {
+			cl, ok := n.(*ast.CompositeLit)
+			if !ok {
+				return true
+			}
+			if _, tn := namedOf(info.TypeOf(cl)); tn != "newlineFragment" {
+				return true
+			}
+			for _, el := range cl.Elts {
+				kv, ok := el.(*ast.KeyValueExpr)
+				if !ok {
+					continue
+				}
+				if k, ok := kv.Key.(*ast.Ident); !ok || k.Name != "Empty" {
+					continue
+				}
+				if id, ok := ast.Unparen(kv.Value).(*ast.Ident); ok {
+					for i, p := range params {
+						if info.Uses[id] == p {
+							emitter[info.Defs[d.Name]] = i
+						}
+					}
+				}
+			}
+			return true
+		})
+	}
+	constOf := func(x ast.Expr) (int64, bool) {
+		x = ast.Unparen(x)
+		if cl, ok := x.(*ast.CallExpr); ok && len(cl.Args) == 1 {
+			if tv, ok := info.Types[cl.Fun]; ok && tv.IsType() {
+				x = ast.Unparen(cl.Args[0])
+			}
+		}
+		if tv, ok := info.Types[x]; ok && tv.Value != nil && tv.Value.Kind() == constant.Int {
+			return constant.Int64Val(tv.Value)
+		}
+		return 0, false
+	}
+	plusConst := func(x ast.Expr) bool {
+		x = ast.Unparen(x)
+		if cl, ok := x.(*ast.CallExpr); ok && len(cl.Args) == 1 {
+			if tv, ok := info.Types[cl.Fun]; ok && tv.IsType() {
+				x = ast.Unparen(cl.Args[0])
+			}
+		}
+		be, ok := x.(*ast.BinaryExpr)
+		if !ok || (be.Op != token.ADD && be.Op != token.SUB) {
+			return false
+		}
+		if k, ok := constOf(be.Y); ok && k != 0 {
+			return true
+		}
+		k, ok := constOf(be.X)
+		return ok && k != 0 && be.Op == token.ADD
+	}
+	// every definition of a local of the pass
+	defs := map[types.Object][]ast.Expr{}
+	ast.Inspect(lit.Body, func(n ast.Node) bool {
+		if as, ok := n.(*ast.AssignStmt); ok && len(as.Lhs) == len(as.Rhs) {
+			for i, l := range as.Lhs {
+				if id, ok := l.(*ast.Ident); ok {
+					o := info.Defs[id]
+					if o == nil {
+						o = info.Uses[id]
+					}
+					if o != nil {
+						defs[o] = append(defs[o], as.Rhs[i])
+					}
+				}
+			}
+		}
+		return true
+	})
+	lineTable := func(x ast.Expr) bool {
+		hit := false
+		var walk func(x ast.Expr, depth int)
+		walk = func(x ast.Expr, depth int) {
+			ast.Inspect(x, func(m ast.Node) bool {
+				switch v := m.(type) {
+				case *ast.CallExpr:
+					switch funcKey(calleeFunc(info, v)) {
+					case "(*go/token.File).LineStart", "(*go/token.File).Offset", "(*go/token.File).Pos":
+						hit = true
+					}
+				case *ast.Ident:
+					if depth < 3 {
+						for _, d := range defs[info.Uses[v]] {
+							walk(d, depth+1)
+						}
+					}
+				}
+				return !hit
+			})
+		}
+		walk(x, 0)
+		return hit
+	}
+	fixed := func(x ast.Expr) string {
+		why := ""
+		ast.Inspect(x, func(m ast.Node) bool {
+			switch v := m.(type) {
+			case *ast.CallExpr:
+				if _, arg, ok := e.posLookup(pkg, v, 0); ok && plusConst(arg) {
+					why = "the line of " + types.ExprString(arg) + " is looked up"
+				}
+			case *ast.BinaryExpr:
+				if (v.Op == token.EQL || v.Op == token.NEQ) && (plusConst(v.X) || plusConst(v.Y)) && (lineTable(v.X) || lineTable(v.Y)) {
+					why = "the starts of two lines are compared at a fixed distance (" + types.ExprString(v) + ")"
+				}
+			}
+			return why == ""
+		})
+		return why
+	}
+	n := 0
+	why, at := "", ""
+	var stack []ast.Node
+	ast.Inspect(lit.Body, func(nd ast.Node) bool {
+		if nd == nil {
+			stack = stack[:len(stack)-1]
+			return true
+		}
+		stack = append(stack, nd)
+		call, ok := nd.(*ast.CallExpr)
+		if !ok {
+			return true
+		}
+		idx, isEmitter := emitter[types.Object(calleeFunc(info, call))]
+		if fn := calleeFunc(info, call); fn == nil || !isEmitter || idx >= len(call.Args) {
+			return true
+		}
+		arg := call.Args[idx]
+		var exprs []ast.Expr
+		if tv, ok := info.Types[arg]; ok && tv.Value != nil {
+			if tv.Value.String() != "true" {
+				return true
+			}
+			// the conditions under which the call is reached
+			for i := len(stack) - 2; i >= 0; i-- {
+				if is, ok := stack[i].(*ast.IfStmt); ok {
+					exprs = append(exprs, is.Cond)
+				}
+			}
+		} else {
+			exprs = append(exprs, arg)
+		}
+		n++
+		seen := map[types.Object]bool{}
+		var walk func(x ast.Expr, depth int)
+		walk = func(x ast.Expr, depth int) {
+			if w := fixed(x); w != "" && why == "" {
+				why, at = w, e.Prog.Pos(call.Pos())
+			}
+			ast.Inspect(x, func(m ast.Node) bool {
+				if id, ok := m.(*ast.Ident); ok && depth < 3 {
+					if o := info.Uses[id]; o != nil && !seen[o] {
+						seen[o] = true
+						for _, d := range defs[o] {
+							walk(d, depth+1)
+						}
+					}
+				}
+				return true
+			})
+		}
+		for _, x := range exprs {
+			walk(x, 0)
+		}
+		return true
+	})
+	e.Run.Check("R-SCAN", "fragment: whether a line is empty is not decided by a fixed byte distance", at, why == "",
+		"an empty-line fragment is emitted when "+why+": only a line that consists of the single byte \"\\n\" is recognised; an empty line written \"\\r\\n\" (CRLF files) or holding blanks is decorated as an ordinary line break — import groups merge and are sorted as one (tokens reordered, a path imported in two groups dropped), a free-standing comment becomes a doc comment and go/printer reformats its text")
+	e.Run.Floor("R-SCAN", "sites that emit an empty-line fragment", n, 1)
+}
+
+func filepathBase(p string) string {
+	if i := strings.LastIndex(p, "/"); i >= 0 {
+		return p[i+1:]
+	}
+	return p
+}
+
+// lineSpan: the bounds of a line-marking loop, printed in the terms of the per-file pass, name
+// the first and the last line of something. Both are sums; integer constants (the +1 of "the
+// lines that follow") are dropped and equal terms of opposite sign cancel. What is left of
+// `from` is the line of a position; what is left of `to` is the line of a position, or the same
+// first line plus strings.Count(T, "\n") — the line breaks a text holds. The results are the
+// expressions that name the entity at either end (the position looked up, or T).
+func lineSpan(from, to string, posLine *regexp.Regexp) (string, string, bool) {
+	terms := func(s string) (map[string]int, bool) {
+		x, err := parser.ParseExpr(s)
+		if err != nil {
+			return nil, false
+		}
+		out := map[string]int{}
+		var flat func(e ast.Expr, sign int)
+		flat = func(e ast.Expr, sign int) {
+			e = ast.Unparen(e)
+			if be, ok := e.(*ast.BinaryExpr); ok && (be.Op == token.ADD || be.Op == token.SUB) {
+				flat(be.X, sign)
+				if be.Op == token.SUB {
+					flat(be.Y, -sign)
+				} else {
+					flat(be.Y, sign)
+				}
+				return
+			}
+			if bl, ok := e.(*ast.BasicLit); ok && bl.Kind == token.INT {
+				return
+			}
+			out[types.ExprString(e)] += sign
+		}
+		flat(x, 1)
+		for k, v := range out {
+			if v == 0 {
+				delete(out, k)
+			}
+		}
+		return out, true
+	}
+	ft, ok1 := terms(from)
+	tt, ok2 := terms(to)
+	if !ok1 || !ok2 || len(ft) != 1 {
+		return "", "", false
+	}
+	var fromTerm string
+	for k, v := range ft {
+		if v != 1 {
+			return "", "", false
+		}
+		fromTerm = k
+	}
+	mf := posLine.FindStringSubmatch(fromTerm)
+	if mf == nil {
+		return "", "", false
+	}
+	switch len(tt) {
+	case 1:
+		for k, v := range tt {
+			if mt := posLine.FindStringSubmatch(k); v == 1 && mt != nil {
+				return mf[1], mt[1], true
+			}
+		}
+	case 2:
+		if tt[fromTerm] != 1 {
+			return "", "", false
+		}
+		for k, v := range tt {
+			if k == fromTerm {
+				continue
+			}
+			if rest := strings.TrimPrefix(k, "strings.Count("); v == 1 && rest != k && strings.HasSuffix(rest, `, "\n")`) {
+				return mf[1], strings.TrimSuffix(rest, `, "\n")`), true
+			}
+		}
+	}
+	return "", "", false
 }
 
 // posLookup: call maps a token.Pos to a token.Position. kind is "adjusted" (//line directives
